@@ -28,7 +28,8 @@ PLAN = {
                 mc=[("MC_C04", {"quick": "MC_C04_quick.cfg", "thorough": "MC_C04_thorough.cfg"})]),
     "C05": dict(export="Export_C05", parts=[("i", dict(flags=[(False, False), (True, True)])),
                                             ("o", dict(flags=[(False, False), (True, True)])),
-                                            ("r", dict(flags=FF, spellings=[{}, {"upper_suffix": True}]))],
+                                            ("r", dict(flags=FF, spellings=[{}, {"upper_suffix": True}])),
+                                            ("d", dict(flags=FF))],
                 mc=[("MC_C05", {"quick": "MC_C05_quick.cfg", "thorough": "MC_C05_thorough.cfg"})]),
     "C06": dict(export="Export_C06", parts=[(None, dict(flags=[(False, False), (True, True)], spellings=[{}, {"ints": True}]))],
                 mc=[("MC_C06", {"quick": "MC_C06_quick.cfg", "thorough": "MC_C06_thorough.cfg"})]),
